@@ -75,3 +75,93 @@ Proof.
       * unfold lo, hi, lo0, hi0 in *. destruct mn as [a|]; cbn; auto. destruct mx; simpl in *; auto.
       * unfold lo, hi, lo0, hi0 in *. destruct mx as [b|]; cbn; auto.
 Qed.
+
+(* ---- str ---- *)
+Lemma is_prefix_app a q : is_prefix a (a ++ q) = true.
+Proof. induction a as [|x a IH]; simpl; auto. rewrite N.eqb_refl. exact IH. Qed.
+
+Lemma infix_app a p q : infix a (p ++ a ++ q) = true.
+Proof.
+  induction p as [|x p IH]; simpl.
+  - destruct (a ++ q) eqn:E; simpl.
+    + destruct a; [reflexivity | discriminate].
+    + rewrite <- E, is_prefix_app. reflexivity.
+  - rewrite IH. apply orb_true_r.
+Qed.
+
+Lemma infix_nil_l b : infix [] b = true.
+Proof. destruct b; reflexivity. Qed.
+
+Lemma splice_length g t off :
+  0 <= off <= zlen g -> zlen (splice g t off) = zlen g + zlen t.
+Proof.
+  intros H. unfold splice, zlen in *. rewrite !app_length, firstn_length, skipn_length. lia.
+Qed.
+
+Lemma splice_forall (P : N -> Prop) g t off :
+  Forall P g -> Forall P t -> Forall P (splice g t off).
+Proof.
+  intros Hg Ht. unfold splice. rewrite <- (firstn_skipn (Z.to_nat off) g) in Hg.
+  apply Forall_app in Hg as [H1 H2]. apply Forall_app. split; auto. apply Forall_app. split; auto.
+Qed.
+
+Lemma g_str_plain_sound w len mnl mxl al sub :
+  sat_str w None len mnl mxl al sub None ->
+  returns (g_str w None len mnl mxl al sub None) (conforms (SStr None len mnl mxl al sub None)).
+Proof.
+  intros (Hal & Hlen). unfold g_str.
+  set (alphabet := match al with Some a => a | None => STR_ALPHABET end).
+  (* the drawn length L satisfies everything the rest needs *)
+  set (good := fun L : Z => sub_len sub <= L /\ 0 <= L /\ len_ok L len mnl mxl /\
+                            (al = Some [] -> L = sub_len sub)).
+  eapply returns_bind with (P := good).
+  - destruct len as [k|].
+    + destruct Hlen as (H0 & H1 & H2 & H3). apply returns_ret. unfold good. auto.
+    + cbv zeta in Hlen.
+      set (lo0 := opt_iz mnl STR_LEN_MIN) in *.
+      set (hi0 := match mxl with Some k => iz k | None => Z.max STR_LEN_MAX lo0 end) in *.
+      set (lo := match sub with Some t => Z.max lo0 (zlen t) | None => lo0 end) in *.
+      set (hi := match sub with Some t => Z.max hi0 (zlen t) | None => hi0 end) in *.
+      destruct Hlen as (H0 & H1 & H2 & H3).
+      eapply returns_weaken; [apply returns_randint; exact H1|].
+      intros L HL. cbv beta in HL. unfold good, len_ok, sub_len. cbn [opt_holds].
+      assert (Hmx : opt_holds mxl (fun k => L <= iz k)) by (destruct mxl as [m|]; cbn in *; auto; lia).
+      assert (Hmn : opt_holds mnl (fun k => iz k <= L)).
+      { subst lo lo0. unfold opt_iz in *. destruct mnl as [m|]; cbn; auto. destruct sub; lia. }
+      assert (Hsub : match sub with Some t => zlen t | None => 0 end <= L) by (subst lo; destruct sub; lia).
+      assert (H0L : 0 <= L) by lia.
+      repeat split; auto.
+      intros Ha. specialize (H3 Ha). subst lo hi. unfold sub_len in *. destruct sub; lia.
+  - intros L (HL1 & HL0 & HL2 & HL3).
+    assert (Hne : alphabet <> [] \/ L - sub_len sub <= 0).
+    { destruct al as [[|c a]|] eqn:Ea.
+      - right. specialize (HL3 eq_refl). lia.
+      - left. unfold alphabet. discriminate.
+      - left. unfold alphabet. apply str_alphabet_nonempty. }
+    assert (Halpha : forall s, Forall (fun c => In c alphabet) s ->
+                               opt_holds al (fun a => Forall (fun c => In c a) s)).
+    { intros s Hs. unfold alphabet in Hs. destruct al; cbn; auto. }
+    destruct sub as [t|].
+    + eapply returns_bind; [apply returns_random_str; exact Hne|]. intros g [Hg1 Hg2].
+      eapply returns_bind; [apply returns_randint; unfold zlen; lia|]. intros off Hoff.
+      apply returns_ret. exists (splice g t off). cbn [opt_holds].
+      split; [reflexivity|]. split; [exact I|]. split; [exact I|]. split; [|split].
+      * rewrite splice_length by exact Hoff. unfold zlen at 1. rewrite Hg1. unfold sub_len in *.
+        replace (Z.of_nat (Z.to_nat (L - zlen t)) + zlen t) with L by lia. exact HL2.
+      * unfold splice. apply infix_app.
+      * destruct al as [a|]; cbn in *; [|exact I]. apply splice_forall; auto.
+    + eapply returns_bind; [apply returns_random_str; unfold sub_len in Hne; rewrite Z.sub_0_r in Hne; exact Hne|].
+      intros g [Hg1 Hg2]. apply returns_ret. exists g. cbn [opt_holds].
+      split; [reflexivity|]. split; [exact I|]. split; [exact I|]. split; [|split; [exact I|]].
+      * unfold zlen. rewrite Hg1. replace (Z.of_nat (Z.to_nat L)) with L by lia. exact HL2.
+      * apply Halpha. exact Hg2.
+Qed.
+
+Lemma g_bytes_sound val : returns (g_bytes val) (conforms (SBytes val)).
+Proof.
+  unfold g_bytes. destruct val as [b|].
+  - apply returns_ret. exists b. cbn. auto.
+  - eapply returns_bind; [apply returns_randint; apply bytes_len_range|]. intros n _.
+    eapply returns_bind; [apply returns_random_str; left; apply str_alphabet_nonempty|].
+    intros g _. apply returns_ret. exists g. cbn. auto.
+Qed.
